@@ -2,6 +2,7 @@
 from contracts import c03_context as C
 from contracts import c03_objective as O
 from contracts import c02_remove_reactions_ctx as RRC
+from contracts import c02_add_reactions_ctx as ARC
 from contracts import c12_rxn_arith as ARITH
 from props._generic import run_property, replay_with_driver
 
@@ -14,8 +15,9 @@ OBJECTIVE_KEYS = ["set_objective", "set_objective.reset", "_valid_atoms", "Model
 
 
 def run(rep):
-    run_property(rep, KEYS, hooks=C.ALL_HOOKS, more=[(OBJECTIVE_KEYS, O.HOOKS), (RRC.KEYS, RRC.HOOKS), (ARITH.KEYS, ARITH.HOOKS)],
-                 lemmas=lambda: C.lemmas() + O.lemmas() + RRC.lemmas() + ARITH.lemmas(), explanation=(
+    run_property(rep, KEYS, hooks=C.ALL_HOOKS, more=[(OBJECTIVE_KEYS, O.HOOKS), (RRC.KEYS, RRC.HOOKS), (ARC.KEYS, ARC.HOOKS), (ARITH.KEYS, ARITH.HOOKS)],
+                 lemmas=lambda: C.lemmas() + O.lemmas() + RRC.lemmas() + ARC.lemmas() + ARITH.lemmas(), explanation=(
+        "Model.add_reactions with a context open (key Model.add_reactions[context]; lists, models and stoichiometries of any size, any depth of the context stack): the final state exactly as the no-context contract proves it (same formulas) PLUS the undo registrations as a ghost trace, all in the INNERMOST context, nothing twice: per added reaction r a block setattr(r, _model, None), then for every key x of r._metabolites at exit x._reaction.remove(r) - registered only where the x._reaction.add(r) it inverts changed the set - or the recorded call add_metabolites(x) (x joined; the callee's own registrations, ASSUMED: in a context it changes the state as its no-context contract says), then the recorded call r.update_genes_from_gpr() (its proved in-context case), blocks in the order of pruned, and last reactions.__isub__(pruned) registered after `reactions += pruned`; glue lemmas undo-restores (membership of model.reactions, _model of reactions, _reaction sets of the entry members of model.metabolites); stated precondition own-keys-do-not-list (a key of a to-be-added reaction that is a member of model.metabolites does not list it at entry: otherwise the unguarded else-branch registers a remove for a no-op add - not reachable through the public API at the repaired commit); the re-pointing of the stoichiometry keys has no inverse and needs none (the reaction is outside the model at entry and exit). "
         "Context-aware model edits under contract with their undo registrations: Model.remove_reactions with a context open (remove_orphans=False; lists and models of any size): every change it makes to model pointers, model.reactions, back references and group members has its inverse registered in the INNERMOST context, nothing is registered for a change that was not made and nothing twice (ghost trace; per reaction [objective coefficients,] _populate_solver([r]), setattr(r, _model, model), reactions.add(r), x._reaction.add(r) per former referrer, g.add_members([r]) per former group), with the glue lemmas undo-restores (replaying the registered undos on the exit state gives back the entry views); Reaction.__imul__ in a context: exactly the two registrations _populate_solver([self]) and __imul__(1/c), lemma undo-restores (precondition c != 0). "
         "Deductive (kernel): HistoryManager.reset is proved to replay the recorded undo actions last-in-first-out and to empty the "
         "history (loop invariant over the recursive spec function run, with a decreasing variant), __call__ to append, get_context "
